@@ -18,7 +18,23 @@ pub fn generate(run_seed: u64) -> Scenario {
     let (cfg, polys) = g.workload(&scheme, 3);
     let points = g.points(2);
     let n_ops = g.r.gen_range(1..=2);
-    let ops: Vec<Op> = (0..n_ops).map(|_| g.any_op(&polys, points.len(), 0.3, 0.5)).collect();
+    let mut ops: Vec<Op> = (0..n_ops).map(|_| g.any_op(&polys, points.len(), 0.3, 0.5)).collect();
+    // artefact-level corner: a combination made of constants only (queries no polynomial, so the
+    // default path transmits a present-but-empty evaluation list); and, rarely, an op of only that
+    for op in ops.iter_mut() {
+        if let Op::Lc { lcs, queries } = op {
+            if g.r.gen_bool(0.3) {
+                let konst = LcSpec { label: "konst".into(), terms: vec![(Coeff::Rand(g.r.gen_range(0..1000)), None), (Coeff::One, None)] };
+                if g.r.gen_bool(0.5) {
+                    *lcs = vec![konst];
+                    *queries = vec![(0, 0)];
+                } else {
+                    lcs.push(konst);
+                    queries.push((lcs.len() - 1, 0));
+                }
+            }
+        }
+    }
     let mut env = g.env(n_ops, false);
     env.io_chunk = g.r.gen::<u64>() | 1;
     env.io_eintr = g.r.gen_range(2..6);
@@ -198,8 +214,12 @@ pub fn run<S: Scheme>(scn: &Scenario, log: &EventLog) -> RunResult {
     for (i, op) in scn.ops.iter().enumerate() {
         // no acceptance precondition here: a decision that *changes* with reloaded keys is exactly
         // what part (5) looks for, also when the session's own (reloaded) keys reject the honest proof
+        // the claims kept here are PRISTINE (never serialized): part (5) compares them with their reloads
         let Outcome::Ok(c) = sess.prove(op, i as u64) else { res.stats.probe("vacuous:honest-prover-failed"); break };
-        let Ok(c) = c.through_channel(&scn.env, 500 + i as u64) else { res.violations.push(viol(scn, "io-contract", "roundtrip", "proof", "honest proof lost on a benign channel".into())); break };
+        if c.through_channel(&scn.env, 500 + i as u64).is_err() {
+            res.violations.push(viol(scn, "io-contract", "roundtrip", "proof", "honest proof lost on a benign channel".into()));
+            break;
+        }
         let _ = sess.verify(&c, i as u64);
         claims.push(c);
     }
